@@ -7,7 +7,7 @@ Local Open Scope N_scope.
 Fixpoint lsrc_s (s : lstmt) : bool :=
   match s with
   | LExpr _ v | LAssign _ _ v => src_e v
-  | LPass _ => true
+  | LPass _ | LBreak _ | LContinue _ => true
   | LIf _ t b o | LWhile _ t b o => src_e t && forallb lsrc_s b && forallb lsrc_s o
   | _ => false
   end.
@@ -19,6 +19,8 @@ Hypothesis HAssign : forall n xs v, P (LAssign n xs v).
 Hypothesis HPass : forall n, P (LPass n).
 Hypothesis HIf : forall n t b o, Forall P b -> Forall P o -> P (LIf n t b o).
 Hypothesis HWhile : forall n t b o, Forall P b -> Forall P o -> P (LWhile n t b o).
+Hypothesis HBreak : forall n, P (LBreak n).
+Hypothesis HContinue : forall n, P (LContinue n).
 Hypothesis HEmit : forall e n v g, P (LEmit e n v g).
 Hypothesis HBefore : forall n tb own, P (LBefore n tb own).
 Hypothesis HWhileG : forall n g t' t b o, P (LWhileG n g t' t b o).
@@ -32,6 +34,8 @@ Fixpoint lstmt_ind' (s : lstmt) : P s :=
   | LPass n => HPass n
   | LIf n t b o => HIf n t b o (all b) (all o)
   | LWhile n t b o => HWhile n t b o (all b) (all o)
+  | LBreak n => HBreak n
+  | LContinue n => HContinue n
   | LEmit e n v g => HEmit e n v g
   | LBefore n tb own => HBefore n tb own
   | LWhileG n g t' t b o => HWhileG n g t' t b o
@@ -83,9 +87,11 @@ Definition lloop (test : env -> list entry -> res val * list entry) (b o : list 
             if truth vt then
               let a := lexec_l b r saved (pre ++ lt) in
               match l_exc a with
+              | Some LBrk => {| l_exc := None; l_env := l_env a; l_saved := l_saved a; l_log := lt ++ l_log a |}
+              | None | Some LCnt =>
+                  let z := loop f' (l_env a) (l_saved a) (pre ++ lt ++ l_log a) in
+                  {| l_exc := l_exc z; l_env := l_env z; l_saved := l_saved z; l_log := lt ++ l_log a ++ l_log z |}
               | Some _ => {| l_exc := l_exc a; l_env := l_env a; l_saved := l_saved a; l_log := lt ++ l_log a |}
-              | None => let z := loop f' (l_env a) (l_saved a) (pre ++ lt ++ l_log a) in
-                        {| l_exc := l_exc z; l_env := l_env z; l_saved := l_saved z; l_log := lt ++ l_log a ++ l_log z |}
               end
             else let a := lexec_l o r saved (pre ++ lt) in
                  {| l_exc := l_exc a; l_env := l_env a; l_saved := l_saved a; l_log := lt ++ l_log a |}
@@ -150,9 +156,11 @@ Definition rloop (quiet : bool) (n : N) (t : texpr) (b o : list lstmt) :=
               let a := lref_l (negb loud_b) false b r (pre ++ lt ++ lb) in
               let la := if loud_b then [eaw n] else [] in
               match rl_exc a with
+              | Some LBrk => {| rl_exc := None; rl_env := rl_env a; rl_log := lt ++ lb ++ rl_log a ++ la |}
+              | None | Some LCnt =>
+                  let z := loop f' (rl_env a) (pre ++ lt ++ lb ++ rl_log a ++ la) in
+                  {| rl_exc := rl_exc z; rl_env := rl_env z; rl_log := lt ++ lb ++ rl_log a ++ la ++ rl_log z |}
               | Some _ => {| rl_exc := rl_exc a; rl_env := rl_env a; rl_log := lt ++ lb ++ rl_log a ++ la |}
-              | None => let z := loop f' (rl_env a) (pre ++ lt ++ lb ++ rl_log a ++ la) in
-                        {| rl_exc := rl_exc z; rl_env := rl_env z; rl_log := lt ++ lb ++ rl_log a ++ la ++ rl_log z |}
               end
             else let a := lref_l quiet false o r (pre ++ lt) in
                  {| rl_exc := rl_exc a; rl_env := rl_env a; rl_log := lt ++ rl_log a |}
@@ -168,6 +176,8 @@ Definition lbody_of (quiet : bool) (s : lstmt) (r : env) (pre : list entry) : op
       (lexc_of q, match q with Ok x => fold_left (fun r' y => upd r' y x) xs r | Err _ => r end,
        say quiet ((E_before_assign_rhs, xid v, None) :: l ++ emitted E_after_assign_rhs (xid v) q), VNone)
   | LPass _ => (None, r, [], VNone)
+  | LBreak _ => (Some LBrk, r, [], VNone)
+  | LContinue _ => (Some LCnt, r, [], VNone)
   | LIf _ t b o =>
       let '(q, l) := ref_e t r in
       match q with
@@ -233,14 +243,13 @@ Proof.
       * match goal with |- context [lexec_l (map (pr ge) b) r sv ?p] => match goal with |- context [lref_l true false b r ?p'] =>
           destruct (quiet_list b Fb Hb r sv p p') as [A1 A2 A3 A4 A5];
           remember (lexec_l (map (pr ge) b) r sv p) as A eqn:EA; remember (lref_l true false b r p') as B eqn:EB end end.
-        rewrite A1. destruct (rl_exc B) eqn:Ex.
-        -- split; cbn [l_exc l_env l_saved l_log rl_exc rl_env rl_log]; try assumption; rewrite ?A4, ?A5; reflexivity.
-        -- match goal with |- context [lloop test _ _ f (l_env A) (l_saved A) ?p] => match goal with |- context [rloop true n t b o f (rl_env B) ?p'] =>
-             destruct (IH (l_env A) (l_saved A) p p') as [B1 B2 B3 B4 B5] end end.
-           rewrite A2 in *. split; cbn [l_exc l_env l_saved l_log rl_exc rl_env rl_log]; try assumption.
-           ++ rewrite B3. exact A3.
-           ++ rewrite B4, A4. reflexivity.
-           ++ rewrite B5, A5. reflexivity.
+        rewrite A1.
+        destruct (rl_exc B) as [[e| | |]|] eqn:Ex;
+          try (split; cbn [l_exc l_env l_saved l_log rl_exc rl_env rl_log]; try assumption; rewrite ?A4, ?A5; reflexivity);
+          (match goal with |- context [lloop test _ _ f (l_env A) (l_saved A) ?p] => match goal with |- context [rloop true n t b o f (rl_env B) ?p'] =>
+             destruct (IH (l_env A) (l_saved A) p p') as [B1 B2 B3 B4 B5] end end;
+           rewrite A2 in *; split; cbn [l_exc l_env l_saved l_log rl_exc rl_env rl_log]; try assumption;
+           [rewrite B3; exact A3|rewrite B4, A4; reflexivity|rewrite B5, A5; reflexivity]).
       * match goal with |- context [lexec_l (map (pr ge) o) r sv ?p] => match goal with |- context [lref_l true false o r ?p'] =>
           destruct (quiet_list o Fo Ho r sv p p') as [A1 A2 A3 A4 A5] end end.
         split; cbn [l_exc l_env l_saved l_log rl_exc rl_env rl_log]; try assumption; rewrite ?A4, ?A5; reflexivity.
@@ -276,6 +285,10 @@ Proof.
     destruct Q as [A1 A2 A3 A4 A5]. cbn [say app]. rewrite A5.
     split; cbn [l_exc l_env l_saved l_log rl_exc rl_env rl_log app]; try assumption.
     destruct (rl_exc _); reflexivity.
+  - (* break *)
+    split; reflexivity.
+  - (* continue *)
+    split; reflexivity.
 Qed.
 
 (* ================================================================ the instrumented program against the gated reference *)
@@ -437,14 +450,19 @@ Proof.
       destruct HI as (I1 & I2 & I3).
       set (A := lexec_l W_body r sv (p ++ LT)) in *.
       set (a := lref_l (negb LB) false b r ((p' ++ lt) ++ lb)) in *.
-      rewrite I1. destruct (rl_exc a) eqn:Ex.
-      * unfold lsim. cbn [l_exc l_env l_log rl_exc rl_env rl_log]. repeat split; try assumption.
-        rewrite !fl_app, T2, I3, !fl_app. reflexivity.
-      * assert (Hn : fl (p ++ LT ++ l_log A) = fl (p' ++ lt ++ lb ++ rl_log a ++ la)).
+      rewrite I1.
+      assert (Hcont : lsim (let z := lloop W_test W_body W_o' f (l_env A) (l_saved A) (p ++ LT ++ l_log A) in
+                            {| l_exc := l_exc z; l_env := l_env z; l_saved := l_saved z; l_log := LT ++ l_log A ++ l_log z |})
+                           (let z := rloop false n t b o f (rl_env a) (p' ++ lt ++ lb ++ rl_log a ++ la) in
+                            {| rl_exc := rl_exc z; rl_env := rl_env z; rl_log := lt ++ lb ++ rl_log a ++ la ++ rl_log z |})).
+      { cbv zeta. assert (Hn : fl (p ++ LT ++ l_log A) = fl (p' ++ lt ++ lb ++ rl_log a ++ la)).
         { rewrite !fl_app, Hp, T2, I3, !fl_app. reflexivity. }
         destruct (IH (l_env A) (l_saved A) _ _ Hn) as (J1 & J2 & J3). rewrite I2 in J1, J2, J3.
         unfold lsim. cbn [l_exc l_env l_log rl_exc rl_env rl_log]. rewrite I2. repeat split; try assumption.
-        rewrite !fl_app, T2, I3, J3, !fl_app, <- !app_assoc. reflexivity.
+        rewrite !fl_app, T2, I3, J3, !fl_app, <- !app_assoc. reflexivity. }
+      destruct (rl_exc a) as [[e| | |]|] eqn:Ex; try exact Hcont;
+        unfold lsim; cbn [l_exc l_env l_log rl_exc rl_env rl_log]; repeat split; try assumption; try reflexivity;
+        rewrite !fl_app, T2, I3, !fl_app; reflexivity.
     + destruct (loud_list o Fo Ho false r sv (p ++ LT) (p' ++ lt) Hq) as (O1 & O2 & O3). fold W_o' in O1, O2, O3.
       unfold lsim. cbn [l_exc l_env l_log rl_exc rl_env rl_log]. repeat split; try assumption.
       rewrite !fl_app, T2, O3. reflexivity.
@@ -509,6 +527,11 @@ Qed.
 Lemma lmain_ok_pass n : lmain_ok (LPass n).
 Proof. intros r sv pm pr_ _. cbn. repeat split. Qed.
 
+Lemma lmain_ok_break n : lmain_ok (LBreak n).
+Proof. intros r sv pm pr_ _. cbn. repeat split. Qed.
+Lemma lmain_ok_continue n : lmain_ok (LContinue n).
+Proof. intros r sv pm pr_ _. cbn. repeat split. Qed.
+
 Lemma lmain_ok_if n t b o : src_e t = true -> forallb lsrc_s b = true -> forallb lsrc_s o = true ->
   Forall loud_ok b -> Forall loud_ok o -> lmain_ok (LIf n t b o).
 Proof.
@@ -552,6 +575,8 @@ Proof.
   - destruct (ref_e v r); reflexivity.
   - reflexivity.
   - destruct (ref_e t r) as [[vt|e] l]; reflexivity.
+  - reflexivity.
+  - reflexivity.
   - reflexivity.
 Qed.
 
@@ -644,6 +669,8 @@ Proof.
     apply lassemble; [exact Hs'|apply lmain_ok_if; assumption|exact Hs'].
   - pose proof Hs as Hs'. apply andb_true_iff in Hs as [Hs Ho]. apply andb_true_iff in Hs as [Ht Hb].
     apply lassemble; [exact Hs'|apply lmain_ok_while; assumption|exact Hs'].
+  - apply lassemble; [reflexivity|apply lmain_ok_break|reflexivity].
+  - apply lassemble; [reflexivity|apply lmain_ok_continue|reflexivity].
 Qed.
 
 Notation lref_module := (lref_module binop cmpop unop truth cval is_and c pol fuel ge).
@@ -715,11 +742,12 @@ Proof.
     destruct (truth vt).
     + match goal with |- same_res (match rl_exc (?RA ?qa false b r ?pa) with _ => _ end) (match rl_exc (?RB ?qb false b r ?pb) with _ => _ end) =>
         destruct (inv_list b Fb qa false qb false r pa pb) as (E1 & E2); remember (RA qa false b r pa) as A; remember (RB qb false b r pb) as B end.
-      rewrite E1. destruct (rl_exc B) eqn:Ex.
-      * split; cbn [rl_exc rl_env]; try reflexivity; try assumption; rewrite ?Ex; try reflexivity; try assumption.
-      * rewrite E2. match goal with |- same_res {| rl_exc := rl_exc (?L1 f (rl_env B) ?pa); rl_env := _; rl_log := _ |} {| rl_exc := rl_exc (?L2 f (rl_env B) ?pb); rl_env := _; rl_log := _ |} =>
-          destruct (IH q1 q2 (rl_env B) pa pb) as (F1 & F2) end.
-        split; cbn [rl_exc rl_env]; assumption.
+      rewrite E1. rewrite E2.
+      destruct (rl_exc B) as [[e| | |]|] eqn:Ex;
+        try (split; cbn [rl_exc rl_env]; try reflexivity; try assumption; fail);
+        (match goal with |- same_res {| rl_exc := rl_exc (?L1 f (rl_env B) ?pa); rl_env := _; rl_log := _ |} {| rl_exc := rl_exc (?L2 f (rl_env B) ?pb); rl_env := _; rl_log := _ |} =>
+           destruct (IH q1 q2 (rl_env B) pa pb) as (F1 & F2) end;
+         split; cbn [rl_exc rl_env]; assumption).
     + match goal with |- same_res {| rl_exc := rl_exc (?RA ?qa false o r ?pa); rl_env := _; rl_log := _ |} {| rl_exc := rl_exc (?RB ?qb false o r ?pb); rl_env := _; rl_log := _ |} =>
         destruct (inv_list o Fo qa false qb false r pa pb) as (E1 & E2) end.
       split; cbn [rl_exc rl_env]; assumption.
@@ -799,6 +827,8 @@ Proof.
     { induction 1 as [|x u Hx _ IH]; intros Hu; [reflexivity|]. cbn [forallb] in Hu. apply andb_true_iff in Hu as [Hx' Hu].
       cbn [flat_map]. rewrite (Hx Hx' false), (IH Hu). reflexivity. }
     rewrite (L b H Hb), (L o H0 Ho). reflexivity.
+  - reflexivity.
+  - reflexivity.
 Qed.
 
 Lemma linstr_none body : forallb lsrc_s body = true -> linstr_module no_events false body = body.
